@@ -23,9 +23,10 @@ import NV.Driver.Router
 import NV.Driver.HostsRefresh
 import NV.Driver.MgrX
 import NV.Driver.SvcStart
+import NV.Driver.Wedge
 namespace NV
 
-def steppers : List (List String → Option String) := [stepCore, stepCap, stepRaceSoak, stepListen, stepUpfault, Disc.stepDiscovery, Config.stepConfig, stepCache, stepFwd, stepProf, stepTTL, stepFS, stepClientInfo, stepEcs, LocalDrv.stepLocal, stepManager, stepRouter, HostsRefreshDrv.stepHostsRefresh, MgrX.stepMgrX, stepSvcStart]
+def steppers : List (List String → Option String) := [stepCore, stepCap, stepRaceSoak, stepListen, stepUpfault, Disc.stepDiscovery, Config.stepConfig, stepCache, stepFwd, stepProf, stepTTL, stepFS, stepClientInfo, stepEcs, LocalDrv.stepLocal, stepManager, stepRouter, HostsRefreshDrv.stepHostsRefresh, MgrX.stepMgrX, stepSvcStart, stepWedge]
 
 def step (line : String) : String :=
   let toks := line.splitOn " "
